@@ -24,7 +24,7 @@ C = ("s", ("i", "c"))
 
 def domain(np):
     ints = [0, 1, -1, 2, 7, 13, -3]
-    floats = [0.0, 0.5, -2.5, 1e10]
+    floats = [0.0, 0.5, -2.5, 1e10, 1e200]      # 1e200: squares / products leave the float range (Python raises or gives inf)
     bools = [True, False]
     cplx = [1 + 2j]
     nps = [np.float64(1.5), np.int64(3)]
@@ -183,6 +183,39 @@ def job_calls_access(chunk):
             # the callee sees positional and keyword arguments exactly as written (keyword order included)
             t.check(env, ("call", "kw", (("loc", A), ("lit", x)), (("z", ("loc", B)), ("a", ("lit", y)), ("m", ("loc", A)))), "kw-order", s)
             t.check(env, ("call", "kw", (), (("q", ("loc", A)), ("b", ("loc", B)))), "kw-order2", s)
+    # the CALLEE is itself a location: evaluate, rebind the callee through the container, evaluate the SAME expression again
+    def f1(x, y=1):
+        return x * 10 + y
+
+    def f2(x, y=1):
+        return x - 100 * y
+
+    class Obj:
+        def __init__(self, k):
+            self.k = k
+
+        def apply(self, x):
+            return x * self.k
+
+    for x in small[:5]:
+        env.data.update({"a": x, "fn": f1, "obj": Obj(3), "tbl": {"p": f1, "q": f2}, "which": "p"})
+        r = env.roots["s"]
+        exprs = [("s['fn'](s['a'], y=2)", r["fn"](r["a"], y=2), lambda d: d["fn"](d["a"], y=2)),
+                 ("s['obj'].apply(s['a'])", r["obj"].apply(r["a"]), lambda d: d["obj"].apply(d["a"])),
+                 ("s['tbl'][s['which']](s['a'])", r["tbl"][r["which"]](r["a"]), lambda d: d["tbl"][d["which"]](d["a"]))]
+        for label, e, py in exprs:
+            for step_, change in (("first evaluation", {}), ("callee rebound", {"fn": f2, "obj": Obj(-7), "which": "q"}),
+                                  ("argument changed", {"a": 11})):
+                env.data.update(change)
+                got = E.outcome(lambda: e._get_value())
+                want = E.outcome(lambda: py(env.data))
+                t.ev += 1
+                t.distinct.add(hash((label, step_, vrepr(x))))
+                if not agree(got, want) and len(t.issues) < 30:
+                    t.issues.append({"kind": "violation", "property": "C04", "finding": None, "config": {},
+                                     "what": f"call through a location-held callee, {step_}: {label} evaluates to {describe(got)}, Python gives {describe(want)}",
+                                     "program": [f"e = {label}", "e._get_value()", f"callee / argument changed in the container: {sorted(change)}", "e._get_value()"],
+                                     "case": {"section": "callee", "label": label}})
     # item / attribute access, constant and computed keys, present and absent
     L = ("s", ("i", "l"))
     D = ("s", ("i", "d"))
@@ -493,6 +526,10 @@ def replay(issue):
     np = _np()
     case = issue["case"]
     ns = {"array": np.array, "np": np, "nan": float("nan"), "inf": float("inf"), "float64": np.float64, "int64": np.int64}
+    if case.get("section") == "callee":
+        r = job_calls_access([0])
+        bad = [i for i in r["issues"] if i["case"].get("section") == "callee"]
+        return {"still_fails": bool(bad), "what": bad[0]["what"] if bad else "ok"}
     if case.get("section") == "inplace_parent":
         r = job_inplace_parent([case["op"]])
         bad = [i for i in r["issues"] if i["case"] == case]
